@@ -272,6 +272,7 @@ loop:
 			case []any:
 				if !env.paths.empty() && env.expdepth == 0 && !env.pathIntact(v) {
 					err = &invalidPathIterError{v}
+					env.push(emptyIter{})
 					break loop
 				}
 				if len(v) == 0 {
@@ -284,6 +285,7 @@ loop:
 			case map[string]any:
 				if !env.paths.empty() && env.expdepth == 0 && !env.pathIntact(v) {
 					err = &invalidPathIterError{v}
+					env.push(emptyIter{})
 					break loop
 				}
 				if len(v) == 0 {
